@@ -6,7 +6,10 @@ import (
 	"encoding/hex"
 	"errors"
 	"io"
+	"io/fs"
 	"math/big"
+	"os"
+	"syscall"
 	"testing"
 
 	"github.com/bytemare/secp256k1"
@@ -38,15 +41,44 @@ type scriptedReader struct {
 
 var errEntropy = errors.New("scripted entropy failure")
 
+type timeoutErr struct{}
+
+func (timeoutErr) Error() string   { return "scripted timeout" }
+func (timeoutErr) Timeout() bool   { return true }
+func (timeoutErr) Temporary() bool { return true }
+
+// faultStyles are the error identities a failing source may present; whatever the identity, a block that was not
+// delivered completely must never be used.
+var faultStyles = []string{"err", "eof", "partial", "unexpected-eof", "eintr", "eagain", "wrapped-eintr", "path-eintr", "timeout", "closed"}
+
+func faultError(style string) error {
+	switch style {
+	case "eof":
+		return io.EOF
+	case "unexpected-eof":
+		return io.ErrUnexpectedEOF
+	case "eintr":
+		return syscall.EINTR
+	case "eagain":
+		return syscall.EAGAIN
+	case "wrapped-eintr":
+		return os.NewSyscallError("getrandom", syscall.EINTR)
+	case "path-eintr":
+		return &fs.PathError{Op: "read", Path: "/dev/urandom", Err: syscall.EINTR}
+	case "timeout":
+		return timeoutErr{}
+	case "closed":
+		return os.ErrClosed
+	}
+	return errEntropy
+}
+
 func (r *scriptedReader) Read(p []byte) (int, error) {
 	r.reads++
 	if len(p) == 0 {
 		return 0, nil
 	}
-	ferr := errEntropy
-	if r.style == "eof" {
-		ferr = io.EOF
-	}
+	ferr := faultError(r.style)
 	limit := len(r.stream)
 	if r.fault >= 0 && r.fault < limit {
 		limit = r.fault
@@ -85,7 +117,7 @@ func (r *scriptedReader) Read(p []byte) (int, error) {
 
 func entropyBlock(t *rapid.T) *big.Int {
 	two256 := new(big.Int).Lsh(bigOne, 256)
-	switch rapid.IntRange(0, 9).Draw(t, "blockKind") {
+	switch gen.Pick(t, "blockKind", 10) {
 	case 0:
 		return new(big.Int)
 	case 1:
@@ -148,7 +180,7 @@ var c18 = gen.Register(&gen.Check[caseC18]{
 			c.Fault = goodEnd + 64
 		}
 		if c.Fault >= 0 {
-			c.Style = rapid.SampledFrom([]string{"err", "eof", "partial"}).Draw(t, "style")
+			c.Style = faultStyles[gen.Pick(t, "style", len(faultStyles))]
 			if c.Style == "partial" && c.Fault%32 == 0 && c.Fault < goodEnd {
 				c.Fault++ // bytes delivered together with the error never complete a block
 				if c.Fault >= goodEnd {
@@ -174,6 +206,12 @@ var c18 = gen.Register(&gen.Check[caseC18]{
 			{Blocks: []string{h(big.NewInt(7))}, Tail: tail, Chunks: []int{16}, Fault: 31, Style: "eof", Prior: p},
 			{Blocks: []string{h(ref.N), h(big.NewInt(7))}, Tail: tail, Chunks: []int{32}, Fault: 32, Style: "err", Prior: p},
 			{Blocks: []string{h(ref.N), h(big.NewInt(7))}, Tail: tail, Chunks: []int{32}, Fault: 40, Style: "partial", Prior: p},
+			{Blocks: []string{h(max)}, Tail: tail, Chunks: []int{5}, Fault: 1, Style: "eintr", Prior: p},
+			{Blocks: []string{h(max)}, Tail: tail, Chunks: []int{16}, Fault: 16, Style: "wrapped-eintr", Prior: p},
+			{Blocks: []string{h(ref.N), h(max)}, Tail: tail, Chunks: []int{32}, Fault: 33, Style: "path-eintr", Prior: p},
+			{Blocks: []string{h(max)}, Tail: tail, Chunks: []int{7}, Fault: 31, Style: "eagain", Prior: p},
+			{Blocks: []string{h(max)}, Tail: tail, Chunks: []int{7}, Fault: 14, Style: "timeout", Prior: p},
+			{Blocks: []string{h(max)}, Tail: tail, Chunks: []int{7}, Fault: 0, Style: "eintr", Prior: p},
 		}
 	},
 	Required: []string{"block>=n", "retry:zero", "retry:n", "fault:before", "fault:after", "chunked"},
@@ -203,6 +241,7 @@ var c18 = gen.Register(&gen.Check[caseC18]{
 			panic("harness: ambiguous fault position")
 		}
 		o.ClassIf(expectPanic, "fault:before")
+		o.ClassIf(c.Fault >= 0, "fault-style:"+c.Style)
 		o.ClassIf(c.Fault >= goodEnd, "fault:after")
 		chunked := false
 		for _, ch := range c.Chunks {
